@@ -48,101 +48,7 @@ def run(ctx):
 
     rule_charge_before_grow(ctx, mir)
 
-    # ------------------------------------------------------------------ R10.2
-    r = ctx.rule("R10.2", "limit errors are never dropped or re-labelled: every Result<_, MemoryLimitExceededError> is propagated with `?`, returned, or mapped into RewritingError::/VmError::MemoryLimitExceeded", "E-MIR error discipline", floor=12)
-    PLUMB = re.compile(r"from_residual|Result::branch|Result::map_err$|Option::ok_or$")
-    TABLE = {("Arena::new", "SharedMemoryLimiter::increase_usage"): "constructor cannot report; failure is turned into 'not preallocated' (see known finding F3)"}
-    n = 0
-    for f in mir.fns:
-        if mir.is_test_fn(f):
-            continue
-        for bi, t in f.calls():
-            ck = callee_key(t)
-            dl = t["dest"]["local"]
-            ty = f.rec["locals"][dl]
-            if not (ty.startswith("std::result::Result") and "MemoryLimitExceededError" in ty):
-                continue
-            if re.search(r"from_residual|Result::branch", ck):
-                continue
-            n += 1
-            key = f"{f.key}|{ck}"
-            verdict = None
-            if dl == 0 and not t["dest"]["proj"]:
-                verdict = "returned"
-            us = uses_of(f, dl)
-            for kind, ubi, x in us:
-                if kind == "arg":
-                    c2 = callee_key(x)
-                    if c2.endswith("branch[Try]"):
-                        verdict = verdict or "propagated with ?"
-                    elif c2 == "Result::map_err":
-                        fn_arg = x["args"][1]
-                        d = f.describe_operand(fn_arg)
-                        good = "MemoryLimitExceeded" in d
-                        if not good:
-                            # closure: look into its body
-                            rp = f.root_place(fn_arg) if fn_arg["k"] in ("copy", "move") else None
-                            for g in mir.fns:
-                                if g.closure_suffix and g.path.startswith(f.path + "::{closure"):
-                                    if ("closure@" in d or g.path in d) or True:
-                                        names = [st["rv"]["name"] for b in g.blocks for st in b["stmts"] if st["k"] == "assign" and st["rv"]["k"] == "agg"]
-                                        if g.path in d or ("{closure" in d and g.path.split("::")[-1] in d):
-                                            good = any(nm_.endswith("MemoryLimitExceeded") or nm_.endswith("MemoryLimitExceededError") for nm_ in names)
-                        verdict = "mapped" if good else "RELABELLED"
-                        if not good:
-                            r.inst(key, sample={"site": f.key, "call": ck, "fate": "map_err to " + d})
-                            r.violate(key, f"{f.key}: the memory-limit error of {ck} is mapped to something other than MemoryLimitExceeded (`{d}`): the caller sees the wrong error kind and the wrong graceful-bail-out flag applies", f.loc())
-                    elif c2 in ("Result::ok", "Result::is_ok", "Result::is_err", "mem::drop", "Result::unwrap_or_default", "Result::unwrap_or"):
-                        if (f.key, ck) in TABLE:
-                            verdict = "reviewed: " + TABLE[(f.key, ck)]
-                        else:
-                            verdict = "DROPPED"
-                            r.inst(key)
-                            r.violate(key, f"{f.key}: the memory-limit error of {ck} is discarded by {c2}", f.loc())
-                    else:
-                        verdict = verdict or ("passed to " + c2)
-                elif kind in ("discr", "switch"):
-                    # matched: on the Err edge of *this* match a *::MemoryLimitExceeded error must be built before returning
-                    sw_bi = None
-                    if kind == "switch":
-                        sw_bi = ubi
-                    else:
-                        dl2 = x["p"]["local"]
-                        for b2i, b2 in enumerate(f.blocks):
-                            t2 = b2["term"]
-                            if t2["k"] == "switch" and t2["d"]["k"] in ("copy", "move") and t2["d"]["p"]["local"] == dl2:
-                                sw_bi = b2i
-                    wrapped = False
-                    if sw_bi is not None:
-                        t2 = f.blocks[sw_bi]["term"]
-                        err_t = [y[1] for y in t2["ts"] if y[0] == 1]
-                        err_t = err_t[0] if err_t else t2["else"]
-                        ok_t = [y[1] for y in t2["ts"] if y[0] == 0]
-                        region = f.reachable_blocks(err_t) - (f.reachable_blocks(ok_t[0], avoid=[err_t]) if ok_t else set()) | {err_t}
-                        wrap_blocks = set(b2i for b2i, b2 in enumerate(f.blocks) for st2 in b2["stmts"] if st2["k"] == "assign" and st2["rv"]["k"] == "agg" and st2["rv"]["name"].endswith("::MemoryLimitExceeded"))
-                        rets = set(f.return_blocks())
-                        wrapped = bool(wrap_blocks) and (err_t in wrap_blocks or not f.can_reach_without(err_t, rets, wrap_blocks))
-                    if wrapped:
-                        verdict = verdict or "matched and wrapped in MemoryLimitExceeded"
-                    else:
-                        verdict = verdict or "MATCHED-NOT-WRAPPED"
-                elif kind == "rvalue":
-                    verdict = verdict or "moved"
-            if verdict is None:
-                verdict = "UNUSED"
-            if verdict in ("RELABELLED", "DROPPED"):
-                continue
-            r.inst(key, sample={"site": f.key, "call": ck, "fate": verdict})
-            if verdict in ("UNUSED", "MATCHED-NOT-WRAPPED"):
-                r.violate(key, f"{f.key}: the Result of {ck} carrying a memory-limit error is {verdict.lower()}", f.loc())
-    if n < 12:
-        raise EngineError("R10.2: fewer than 12 memory-limit results found")
-    # the aux-info path maps the VM error kind explicitly
-    rc = mir.fn("HtmlRewriteController::handle_start_tag[TransformController]")
-    aggs = [st["rv"]["name"] for b in rc.blocks for st in b["stmts"] if st["k"] == "assign" and st["rv"]["k"] == "agg"]
-    r.inst("controller|vm-error-mapping", sample={"aggregates": sorted(set(a.split('::')[-1] for a in aggs))})
-    if not any(a.endswith("RewritingError::MemoryLimitExceeded") for a in aggs):
-        r.violate("controller|vm-error-mapping", "HtmlRewriteController::handle_start_tag no longer maps VmError::MemoryLimitExceeded to RewritingError::MemoryLimitExceeded", rc.loc())
+    rule_limit_errors(ctx, mir)
 
     # ------------------------------------------------------------------ R10.3
     r = ctx.rule("R10.3", "increase_usage adds first and fails exactly when the new usage exceeds max", "E-MIR", floor=1)
@@ -269,6 +175,16 @@ def run(ctx):
     from .c09 import rule_text_released
     from ..smgraph import automaton as _automaton
     rule_text_released(ctx, _automaton(), rid="R10.7")
+
+    # ------------------------------------------------------------------ R10.8 / R10.9 (shared)
+    # one-shot capture flags are cleared after use (otherwise the lexer keeps running and buffers whole comments / tags),
+    # and void elements are popped at once (otherwise every <wbr> stays on the charged open-element stack)
+    from .c05 import rule_flag_table
+    from ..smimpl import index as _index10
+    rule_flag_table(ctx, _index10(), mir, rid="R10.8")
+    r = ctx.rule("R10.9", "void elements never stay on the open-element stack: complete decision table of Stack::get_stack_directive (shared with C04 R04.5)", "E-AST (finite-domain abstract interpretation)", floor=100)
+    from .c04 import clause_stack_directive
+    clause_stack_directive(r, _index10())
 
     ctx.not_decided += ["monotonicity in M and equality of outputs across limits (relations between runs)", "that Vec::try_reserve_exact reserves exactly what was charged (allocator behaviour)"]
     return ("Accounting clauses: charge-dominates-grow on the two limited containers with operand identity, error discipline for every "
@@ -450,4 +366,103 @@ def rule_charge_before_grow(ctx, mir, rid="R10.1"):
     at = list(an.calls(r"Option::and_then$"))
     if not (len(inc) == 1 and len(at) == 1 and rs and an.dominates(inc[0][0], at[0][0]) and not list(an.calls(r"try_reserve|reserve"))):
         r.violate("Arena::new|special-case", "Arena::new no longer reserves only inside the and_then closure applied to the result of increase_usage", an.loc())
+
+
+
+def rule_limit_errors(ctx, mir, rid="R10.2"):
+    # ------------------------------------------------------------------ R10.2
+    r = ctx.rule(rid, "limit errors are never dropped or re-labelled: every Result<_, MemoryLimitExceededError> is propagated with `?`, returned, or mapped into RewritingError::/VmError::MemoryLimitExceeded", "E-MIR error discipline", floor=12)
+    PLUMB = re.compile(r"from_residual|Result::branch|Result::map_err$|Option::ok_or$")
+    TABLE = {("Arena::new", "SharedMemoryLimiter::increase_usage"): "constructor cannot report; failure is turned into 'not preallocated' (see known finding F3)"}
+    n = 0
+    for f in mir.fns:
+        if mir.is_test_fn(f):
+            continue
+        for bi, t in f.calls():
+            ck = callee_key(t)
+            dl = t["dest"]["local"]
+            ty = f.rec["locals"][dl]
+            if not (ty.startswith("std::result::Result") and "MemoryLimitExceededError" in ty):
+                continue
+            if re.search(r"from_residual|Result::branch", ck):
+                continue
+            n += 1
+            key = f"{f.key}|{ck}"
+            verdict = None
+            if dl == 0 and not t["dest"]["proj"]:
+                verdict = "returned"
+            us = uses_of(f, dl)
+            for kind, ubi, x in us:
+                if kind == "arg":
+                    c2 = callee_key(x)
+                    if c2.endswith("branch[Try]"):
+                        verdict = verdict or "propagated with ?"
+                    elif c2 == "Result::map_err":
+                        fn_arg = x["args"][1]
+                        d = f.describe_operand(fn_arg)
+                        good = "MemoryLimitExceeded" in d
+                        if not good:
+                            # closure: look into its body
+                            rp = f.root_place(fn_arg) if fn_arg["k"] in ("copy", "move") else None
+                            for g in mir.fns:
+                                if g.closure_suffix and g.path.startswith(f.path + "::{closure"):
+                                    if ("closure@" in d or g.path in d) or True:
+                                        names = [st["rv"]["name"] for b in g.blocks for st in b["stmts"] if st["k"] == "assign" and st["rv"]["k"] == "agg"]
+                                        if g.path in d or ("{closure" in d and g.path.split("::")[-1] in d):
+                                            good = any(nm_.endswith("MemoryLimitExceeded") or nm_.endswith("MemoryLimitExceededError") for nm_ in names)
+                        verdict = "mapped" if good else "RELABELLED"
+                        if not good:
+                            r.inst(key, sample={"site": f.key, "call": ck, "fate": "map_err to " + d})
+                            r.violate(key, f"{f.key}: the memory-limit error of {ck} is mapped to something other than MemoryLimitExceeded (`{d}`): the caller sees the wrong error kind and the wrong graceful-bail-out flag applies", f.loc())
+                    elif c2 in ("Result::ok", "Result::is_ok", "Result::is_err", "mem::drop", "Result::unwrap_or_default", "Result::unwrap_or"):
+                        if (f.key, ck) in TABLE:
+                            verdict = "reviewed: " + TABLE[(f.key, ck)]
+                        else:
+                            verdict = "DROPPED"
+                            r.inst(key)
+                            r.violate(key, f"{f.key}: the memory-limit error of {ck} is discarded by {c2}", f.loc())
+                    else:
+                        verdict = verdict or ("passed to " + c2)
+                elif kind in ("discr", "switch"):
+                    # matched: on the Err edge of *this* match a *::MemoryLimitExceeded error must be built before returning
+                    sw_bi = None
+                    if kind == "switch":
+                        sw_bi = ubi
+                    else:
+                        dl2 = x["p"]["local"]
+                        for b2i, b2 in enumerate(f.blocks):
+                            t2 = b2["term"]
+                            if t2["k"] == "switch" and t2["d"]["k"] in ("copy", "move") and t2["d"]["p"]["local"] == dl2:
+                                sw_bi = b2i
+                    wrapped = False
+                    if sw_bi is not None:
+                        t2 = f.blocks[sw_bi]["term"]
+                        err_t = [y[1] for y in t2["ts"] if y[0] == 1]
+                        err_t = err_t[0] if err_t else t2["else"]
+                        ok_t = [y[1] for y in t2["ts"] if y[0] == 0]
+                        region = f.reachable_blocks(err_t) - (f.reachable_blocks(ok_t[0], avoid=[err_t]) if ok_t else set()) | {err_t}
+                        wrap_blocks = set(b2i for b2i, b2 in enumerate(f.blocks) for st2 in b2["stmts"] if st2["k"] == "assign" and st2["rv"]["k"] == "agg" and st2["rv"]["name"].endswith("::MemoryLimitExceeded"))
+                        rets = set(f.return_blocks())
+                        wrapped = bool(wrap_blocks) and (err_t in wrap_blocks or not f.can_reach_without(err_t, rets, wrap_blocks))
+                    if wrapped:
+                        verdict = verdict or "matched and wrapped in MemoryLimitExceeded"
+                    else:
+                        verdict = verdict or "MATCHED-NOT-WRAPPED"
+                elif kind == "rvalue":
+                    verdict = verdict or "moved"
+            if verdict is None:
+                verdict = "UNUSED"
+            if verdict in ("RELABELLED", "DROPPED"):
+                continue
+            r.inst(key, sample={"site": f.key, "call": ck, "fate": verdict})
+            if verdict in ("UNUSED", "MATCHED-NOT-WRAPPED"):
+                r.violate(key, f"{f.key}: the Result of {ck} carrying a memory-limit error is {verdict.lower()}", f.loc())
+    if n < 12:
+        raise EngineError("R10.2: fewer than 12 memory-limit results found")
+    # the aux-info path maps the VM error kind explicitly
+    rc = mir.fn("HtmlRewriteController::handle_start_tag[TransformController]")
+    aggs = [st["rv"]["name"] for b in rc.blocks for st in b["stmts"] if st["k"] == "assign" and st["rv"]["k"] == "agg"]
+    r.inst("controller|vm-error-mapping", sample={"aggregates": sorted(set(a.split('::')[-1] for a in aggs))})
+    if not any(a.endswith("RewritingError::MemoryLimitExceeded") for a in aggs):
+        r.violate("controller|vm-error-mapping", "HtmlRewriteController::handle_start_tag no longer maps VmError::MemoryLimitExceeded to RewritingError::MemoryLimitExceeded", rc.loc())
 
